@@ -44,16 +44,26 @@ func sqlFiles(m map[string][]byte) []string {
 }
 
 // importSource writes a third-party-format directory with n files and returns its URL.
-func importSource(dir, format string, n int) string {
+func importSource(dir, format string, n int, unpadded, repeatable bool) string {
 	os.MkdirAll(dir, 0o755)
-	for i := 1; i <= n; i++ {
+	// Unpadded versions that reach 10: the source tool's order (1, 2, 10) is not the
+	// lexicographic order of the generated names.
+	versions := []int{1, 2, 3}
+	if unpadded {
+		versions = []int{1, 2, 10}
+	}
+	if repeatable && format == "flyway" {
+		os.WriteFile(filepath.Join(dir, "R__views.sql"), []byte("CREATE TABLE imp_repeatable (id int);\n"), 0o644)
+	}
+	for k := 0; k < n; k++ {
+		i := versions[k]
 		up := fmt.Sprintf("CREATE TABLE imp%d (id int);\nINSERT INTO imp%d VALUES (%d);\n", i, i, i)
 		down := fmt.Sprintf("DROP TABLE imp%d;\n", i)
 		switch format {
 		case "goose":
 			os.WriteFile(filepath.Join(dir, fmt.Sprintf("%05d_s%d.sql", i, i)), []byte("-- +goose Up\n"+up+"\n-- +goose Down\n"+down), 0o644)
 		case "dbmate":
-			os.WriteFile(filepath.Join(dir, fmt.Sprintf("2024010100000%d_s%d.sql", i, i)), []byte("-- migrate:up\n"+up+"\n-- migrate:down\n"+down), 0o644)
+			os.WriteFile(filepath.Join(dir, fmt.Sprintf("202401010000%02d_s%d.sql", i, i)), []byte("-- migrate:up\n"+up+"\n-- migrate:down\n"+down), 0o644)
 		case "golang-migrate":
 			os.WriteFile(filepath.Join(dir, fmt.Sprintf("%d_s%d.up.sql", i, i)), []byte(up), 0o644)
 			os.WriteFile(filepath.Join(dir, fmt.Sprintf("%d_s%d.down.sql", i, i)), []byte(down), 0o644)
@@ -63,7 +73,7 @@ func importSource(dir, format string, n int) string {
 		case "liquibase":
 			os.WriteFile(filepath.Join(dir, fmt.Sprintf("%d_s%d.sql", i, i)), []byte(fmt.Sprintf("--liquibase formatted sql\n--changeset atlas:%d-0\n%s--rollback: %s", i, up, down)), 0o644)
 		case "atlas":
-			os.WriteFile(filepath.Join(dir, fmt.Sprintf("2024010100000%d_s%d.sql", i, i)), []byte(up), 0o644)
+			os.WriteFile(filepath.Join(dir, fmt.Sprintf("202401010000%02d_s%d.sql", i, i)), []byte(up), 0o644)
 		}
 	}
 	return "file://" + dir + "?format=" + format
@@ -97,7 +107,14 @@ func C06CLI(r *simkit.Run) {
 	// Optionally the directory starts as an import from a third-party tool.
 	if t.Chance("start-from-import", 1, 3) {
 		format := ImportFormats[t.Draw("import-format", len(ImportFormats))]
-		src := importSource(filepath.Join(w.Root, "src"), format, t.Range("import-files", 1, 3))
+		unpadded, repeatable := t.Chance("unpadded-versions", 1, 2), t.Chance("repeatable-migration", 1, 2)
+		src := importSource(filepath.Join(w.Root, "src"), format, t.Range("import-files", 1, 3), unpadded, repeatable)
+		if unpadded {
+			r.Probe("import-unpadded-versions")
+		}
+		if repeatable && format == "flyway" {
+			r.Probe("import-flyway-repeatable")
+		}
 		res := w.Atlas(nil, "migrate", "import", "--from", src, "--to", w.DirURL())
 		r.Logf("import %s -> %s", format, res.Class())
 		r.Sample("`migrate import` from a %s directory -> %s", format, res.Class())
@@ -152,7 +169,8 @@ func C06CLI(r *simkit.Run) {
 			}
 		}
 	}
-	check("initial", false, false)
+	// An import that reported success is a writer: the directory it produced must validate.
+	check("initial", len(alias) > 0, false)
 	steps := t.Range("steps", 2, 7)
 	for s := 0; s < steps && !r.Failed(); s++ {
 		m := readDirBytes(w.Mig)
